@@ -147,9 +147,12 @@ def degree_rule(ctx: Ctx, rule: str) -> None:
     for mod, name, scaled in BUILDERS:
         f = prog.func(mod, name)
         it = analyse(f)
-        for line, msg in it.findings:
-            # a clash of degrees between typed terms is a contradiction; a statement the typing does not understand is not
-            clash = 'degrees differ' in msg or 'sum of terms of degrees' in msg
+        for fd in it.findings:
+            line, msg = fd.line, fd.msg
+            # a clash of degrees between typed terms that are summed, or among the entries of the returned dictionary, is a
+            # contradiction; entries of different degrees in another local container, or a statement the typing does not
+            # understand, are not
+            clash = fd.clash and fd.var in ('', it.ret_name)
             ctx.add(rule, f'{name}:typing', False if clash else None, (f.file, line), f'homogeneity typing fails: {msg}' if clash else f'homogeneity typing: statement not in a form the typing understands: {msg}', detail=msg, positive=clash)
         want = (MU - 1) if scaled else sp.Integer(0)
         ret = it.ret_name
@@ -186,7 +189,7 @@ def degree_rule(ctx: Ctx, rule: str) -> None:
                 good_loops = classes in (('nests', 'members'), ('entries',), ('members',))
             if good_loops:
                 verdict, pos = True, False
-            elif 'unknown' in classes or not b.accumulates:
+            elif 'unknown' in classes or 'entries' in classes or not b.accumulates:
                 # an iterable the rule cannot classify, or a key assigned again with the same value: nothing contradicts the property
                 verdict, pos = None, False
             else:
@@ -221,6 +224,212 @@ def _is_zero(e: ast.expr) -> bool:
     return isinstance(e, ast.Constant) and isinstance(e.value, (int, float)) and not isinstance(e.value, bool) and e.value == 0
 
 
+def _local_defs(fnode) -> tuple[dict[str, list[ast.AST]], set[str]]:
+    """(statements that assign each local name, names changed in place after their definition: item / attribute assignment,
+    augmented assignment, del, a method call whose result is discarded or a known mutator)"""
+    assigned: dict[str, list[ast.AST]] = {}
+    mutated: set[str] = set()
+
+    def root(t):
+        while isinstance(t, (ast.Subscript, ast.Attribute)):
+            t = t.value
+        return t.id if isinstance(t, ast.Name) else None
+
+    def store(t, n):
+        if isinstance(t, ast.Name):
+            assigned.setdefault(t.id, []).append(n)
+        elif isinstance(t, (ast.Tuple, ast.List)):
+            for e in t.elts:
+                store(e, n)
+        elif isinstance(t, ast.Starred):
+            store(t.value, n)
+        elif isinstance(t, (ast.Subscript, ast.Attribute)) and root(t) is not None:
+            mutated.add(root(t))
+
+    for n in walk_no_nested(fnode):
+        if isinstance(n, ast.Assign):
+            for t in n.targets:
+                store(t, n)
+        elif isinstance(n, ast.AnnAssign):
+            store(n.target, n)
+        elif isinstance(n, ast.AugAssign):
+            store(n.target, n)
+            if root(n.target) is not None:
+                mutated.add(root(n.target))
+        elif isinstance(n, ast.Delete):
+            for t in n.targets:
+                if root(t) is not None:
+                    mutated.add(root(t))
+        elif isinstance(n, ast.NamedExpr):
+            store(n.target, n)
+        c = n.value if isinstance(n, ast.Expr) else n
+        if isinstance(c, ast.Call) and isinstance(c.func, ast.Attribute) and root(c.func.value) is not None \
+                and (isinstance(n, ast.Expr) or c.func.attr in ('sort', 'reverse', 'append', 'extend', 'insert', 'remove', 'pop', 'popitem', 'clear', 'update', 'setdefault', 'add', 'discard')):
+            mutated.add(root(c.func.value))
+    return assigned, mutated
+
+
+def _resolved_comp(fnode, comp: ast.ListComp, scope: list[ast.stmt]) -> ast.ListComp | None:
+    """a comprehension over a list that the same block builds with one comprehension stands for the comprehension over the
+    original collection: `g = [(c(i), t(i)) for i in X]` ... `[h(a, b) for a, b in g]` is `[h(c(i), t(i)) for i in X]`;
+    `[h(a, b) for a, b in zip(A, B)]` with A = [c(i) for i in X], B = [t(i) for i in X] likewise.  Returns the comprehension
+    itself when it does not iterate over a local list, None when it does and cannot be read through it."""
+    import copy
+
+    from ..degree import iterated
+
+    if len(comp.generators) != 1:
+        return comp
+    from ..core import inline_locals
+
+    assigned, mutated = _local_defs(fnode)
+    gen = comp.generators[0]
+
+    def through(e):
+        # single-definition locals looked through: `members = m.list_of_alternatives` is not a list the function builds
+        try:
+            return iterated(inline_locals(fnode, iterated(e)))
+        except Exception:  # noqa
+            return iterated(e)
+
+    src = through(gen.iter)
+    in_scope = {id(x) for st in scope for x in ast.walk(st)}
+
+    def local_list(nm: ast.AST):
+        return (isinstance(nm, ast.Name) and nm.id in assigned) or isinstance(nm, (ast.ListComp, ast.GeneratorExp))
+
+    def definition(nm: ast.AST) -> ast.ListComp | None:
+        if isinstance(nm, (ast.ListComp, ast.GeneratorExp)):
+            # the list written in place (the normal form puts a temporary that is used once where it is used)
+            return nm if len(nm.generators) == 1 and not nm.generators[0].ifs and not nm.generators[0].is_async else None
+        ds = assigned.get(nm.id, [])
+        if len(ds) != 1 or nm.id in mutated or id(ds[0]) not in in_scope or not isinstance(ds[0], (ast.Assign, ast.AnnAssign)):
+            return None
+        if isinstance(ds[0], ast.Assign) and (len(ds[0].targets) != 1 or not isinstance(ds[0].targets[0], ast.Name)):
+            return None
+        v = ds[0].value
+        if isinstance(v, ast.ListComp) and len(v.generators) == 1 and not v.generators[0].ifs and not v.generators[0].is_async and ds[0].lineno <= comp.lineno:
+            return v
+        return None
+
+    srcs = None
+    if local_list(src):
+        srcs = [src]
+        targets = [gen.target]
+    elif isinstance(src, ast.Call) and isinstance(src.func, ast.Name) and src.func.id == 'zip' and not src.keywords and any(local_list(through(a)) for a in src.args):
+        srcs = [through(a) for a in src.args]
+        if not isinstance(gen.target, ast.Tuple) or len(gen.target.elts) != len(srcs) or not all(local_list(a) for a in srcs):
+            return None
+        targets = list(gen.target.elts)
+    if srcs is None:
+        return comp
+    defs = [definition(a) for a in srcs]
+    if any(d is None for d in defs):
+        return None
+    # all the lists run over the same collection with the same variable
+    g0 = defs[0].generators[0]
+    if any(ast.dump(d.generators[0].target) != ast.dump(g0.target) or ast.dump(d.generators[0].iter) != ast.dump(g0.iter) for d in defs):
+        return None
+    inner_vars = {x.id for x in ast.walk(g0.target) if isinstance(x, ast.Name)}
+    subst: dict[str, ast.expr] = {}
+    for tg, d in zip(targets, defs):
+        if isinstance(tg, ast.Name):
+            subst[tg.id] = d.elt
+        elif isinstance(tg, ast.Tuple) and isinstance(d.elt, ast.Tuple) and len(tg.elts) == len(d.elt.elts) and all(isinstance(x, ast.Name) for x in tg.elts) \
+                and not any(isinstance(x, ast.Starred) for x in d.elt.elts):
+            for x, e in zip(tg.elts, d.elt.elts):
+                subst[x.id] = e
+        else:
+            return None
+    # the variables of the outer comprehension must not hide names the inner elements read
+    if inner_vars & set(subst) or any(isinstance(x, ast.Name) and x.id in subst and x.id not in inner_vars for e in subst.values() for x in ast.walk(e)):
+        return None
+
+    class Put(ast.NodeTransformer):
+        def visit_Name(self, nn):
+            return copy.deepcopy(subst[nn.id]) if isinstance(nn.ctx, ast.Load) and nn.id in subst else nn
+
+    new = ast.ListComp(elt=Put().visit(copy.deepcopy(comp.elt)),
+                       generators=[ast.comprehension(target=copy.deepcopy(g0.target), iter=copy.deepcopy(g0.iter), ifs=[Put().visit(copy.deepcopy(x)) for x in gen.ifs], is_async=0)])
+    ast.copy_location(new, comp)
+    ast.fix_missing_locations(new)
+    return _resolved_comp(fnode, new, scope)
+
+
+def _nest_sums(fnode, stmts: list[ast.stmt]) -> list[tuple[ast.AST, ast.ListComp | None]]:
+    """the sums over alternatives built by the statements: for every bioMultSum / ConditionalSum call, (the call, the
+    comprehension it sums - written in place or held by a local of the block that is assigned once and not changed - read
+    through the local lists it iterates over; None when the summed list is not a comprehension the rule can read)"""
+    assigned, mutated = _local_defs(fnode)
+    in_scope = {id(x) for st in stmts for x in ast.walk(st)}
+    out = []
+    for st in stmts:
+        for c in ast.walk(st):
+            if not (isinstance(c, ast.Call) and call_name(c) in ('bioMultSum', 'ConditionalSum')):
+                continue
+            arg = c.args[0] if c.args else next((k.value for k in c.keywords if k.arg in ('list_of_terms', 'list_of_expressions', 'terms')), None)
+            if len(c.args) + len(c.keywords) != 1 or arg is None:
+                out.append((c, None))
+                continue
+            if isinstance(arg, ast.Name):
+                ds = assigned.get(arg.id, [])
+                if len(ds) == 1 and arg.id not in mutated and id(ds[0]) in in_scope and isinstance(ds[0], (ast.Assign, ast.AnnAssign)) and isinstance(ds[0].value, ast.ListComp) \
+                        and (isinstance(ds[0], ast.AnnAssign) or (len(ds[0].targets) == 1 and isinstance(ds[0].targets[0], ast.Name))):
+                    arg = ds[0].value
+            out.append((c, _resolved_comp(fnode, arg, stmts) if isinstance(arg, ast.ListComp) else None))
+    # a list the block builds and a later statement sums (`terms = [...]` in each case, `bioMultSum(terms)` after the test)
+    summed_later = set()
+    for c in walk_no_nested(fnode):
+        if isinstance(c, ast.Call) and call_name(c) in ('bioMultSum', 'ConditionalSum') and id(c) not in in_scope:
+            arg = c.args[0] if c.args else next((k.value for k in c.keywords), None)
+            if isinstance(arg, ast.Name):
+                summed_later.add(arg.id)
+    for st in stmts:
+        for a in ast.walk(st):
+            if isinstance(a, (ast.Assign, ast.AnnAssign, ast.AugAssign)) and a.value is not None:
+                tgts = a.targets if isinstance(a, ast.Assign) else [a.target]
+                if any(isinstance(x, ast.Name) and x.id in summed_later for t in tgts for x in ast.walk(t)):
+                    plain = len(tgts) == 1 and isinstance(tgts[0], ast.Name) and not isinstance(a, ast.AugAssign) and tgts[0].id not in mutated and isinstance(a.value, ast.ListComp)
+                    out.append((a, _resolved_comp(fnode, a.value, stmts) if plain else None))
+    out.sort(key=lambda x: (x[0].lineno, x[0].col_offset))
+    return out
+
+
+def _availability_cases(fnode, av: str):
+    """(statement, statements that run without availabilities, statements that run with them) for every `if av is None: A
+    else: B` (either way round) and every pair of consecutive `if av is not None: B` / `if av is None: A` without else - exactly
+    one of the two runs, since nothing assigns the parameter"""
+    from ..degree import none_test
+
+    assigned, _ = _local_defs(fnode)
+    if av in assigned:
+        return []
+
+    def test_of(n):
+        r = none_test(n.test) if isinstance(n, ast.If) else None
+        return r[1] if r is not None and r[0] == av else None
+
+    out = []
+    paired: set[int] = set()
+    for parent in walk_no_nested(fnode):
+        for fld in ('body', 'orelse', 'finalbody'):
+            stmts = getattr(parent, fld, None)
+            if not isinstance(stmts, list) or not stmts or not isinstance(stmts[0], ast.stmt):
+                continue
+            for a, b in zip(stmts, stmts[1:]):
+                ta, tb = test_of(a), test_of(b)
+                if ta is not None and tb is not None and ta != tb and not a.orelse and not b.orelse and id(a) not in paired \
+                        and not any(isinstance(x, (ast.Return, ast.Break, ast.Continue, ast.Raise)) for x in ast.walk(a)):
+                    paired.update((id(a), id(b)))
+                    out.append((a, a.body if ta else b.body, b.body if ta else a.body))
+    for n in walk_no_nested(fnode):
+        t = test_of(n)
+        if t is not None and id(n) not in paired:
+            out.append((n, n.body if t else n.orelse, n.orelse if t else n.body))
+    out.sort(key=lambda x: x[0].lineno)
+    return out
+
+
 class _Term:
     """an element of a nest sum with what it stands for made visible: single-definition locals replaced by their definition,
     `d[k]` of a dictionary built once by `{i: e(i) for i in ...}` replaced by e(k), a call of a one-expression helper of the
@@ -233,15 +442,7 @@ class _Term:
         from ..core import inline_locals
 
         fnode = f.node
-        assigned: dict[str, list[ast.AST]] = {}
-        for n in walk_no_nested(fnode):
-            if isinstance(n, ast.Assign):
-                for t in n.targets:
-                    for x in ast.walk(t):
-                        if isinstance(x, ast.Name) and isinstance(x.ctx, ast.Store):
-                            assigned.setdefault(x.id, []).append(n)
-            elif isinstance(n, (ast.AugAssign, ast.AnnAssign)) and isinstance(n.target, ast.Name):
-                assigned.setdefault(n.target.id, []).append(n)
+        assigned, mutated = _local_defs(fnode)
 
         def keyed_by_its_variable(v):
             return isinstance(v, ast.DictComp) and len(v.generators) == 1 and not v.generators[0].ifs and isinstance(v.generators[0].target, ast.Name) \
@@ -249,7 +450,8 @@ class _Term:
 
         def dict_def(name: str):
             ds = assigned.get(name, [])
-            if len(ds) != 1 or not isinstance(ds[0], (ast.Assign, ast.AnnAssign)):
+            # a dictionary that is changed after its definition (item assignment, update, ...) does not stand for its definition
+            if len(ds) != 1 or not isinstance(ds[0], (ast.Assign, ast.AnnAssign)) or name in mutated:
                 return None
             v = ds[0].value
             return v if keyed_by_its_variable(v) else None
@@ -329,8 +531,8 @@ def availability_rule(ctx: Ctx, rule: str) -> None:
         av = f.positional_params()[1]
         ut = f.positional_params()[0]
         it = analyse(f)
-        ifs = [(n, none_test(n.test)) for n in walk_no_nested(f.node) if isinstance(n, ast.If) and (none_test(n.test) or ('', False))[0] == av]
-        if not ifs:
+        cases = _availability_cases(f.node, av)
+        if not cases:
             raise AnalysisError(f'{rule}: {name}: no branch on `{av} is None`')
 
         def target_names(comp):
@@ -340,12 +542,22 @@ def availability_rule(ctx: Ctx, rule: str) -> None:
         def loop_vars():
             return {x.id for n_ in walk_no_nested(f.node) if isinstance(n_, (ast.For, ast.comprehension)) for x in ast.walk(n_.target) if isinstance(x, ast.Name)}
 
-        for n, (_, is_none) in ifs:
-            none_branch, av_branch = (n.body, n.orelse) if is_none else (n.orelse, n.body)
-            comps = [c for st in av_branch for c in ast.walk(st) if isinstance(c, ast.ListComp)]
-            if not comps:
+        def domain_ok(comp) -> bool:
+            # the sum of a nest runs over the alternatives of the nest
+            return len(comp.generators) == 1 and it.loop_class(it._loop_name(comp.generators[0].iter)) == 'members'
+
+        for n, none_branch, av_branch in cases:
+            sums = _nest_sums(f.node, av_branch)
+            if not sums:
                 ctx.add(rule, f'{name}:availability', False, (f.file, n.lineno), 'no sum over alternatives in the availability branch', 'none')
                 continue
+            nsums = _nest_sums(f.node, none_branch)
+            if any(c is None for _, c in sums) or any(c is None for _, c in nsums):
+                bad = next(call for call, c in sums + nsums if c is None)
+                ctx.add(rule, f'{name}:availability', None, (f.file, bad.lineno), f'the list of terms summed by {unparse(bad)[:80]} is not a comprehension the rule can read '
+                        '(it is built from a local list that is not itself one comprehension of the same block)', 'unread')
+                continue
+            comps = [c for _, c in sums]
             bound = loop_vars()
             for c in comps:
                 names = target_names(c)
@@ -367,7 +579,10 @@ def availability_rule(ctx: Ctx, rule: str) -> None:
                 uses_util = T.util_idx == {idx}
                 ok = guarded and uses_util
                 positive = False
-                if ok:
+                if not domain_ok(c):
+                    ok = None
+                    msg = f'the nest sum runs over {unparse(c.generators[0].iter)[:60]}, not over the alternatives of the nest in a form the rule knows'
+                elif ok:
                     msg = f'each term of the nest sum is conditioned on {av}[{idx}] of the same alternative'
                 elif T.opaque or len(c.generators) != 1 or c.generators[0].ifs:
                     ok = None
@@ -383,7 +598,7 @@ def availability_rule(ctx: Ctx, rule: str) -> None:
                     msg = f'the way the term of the nest sum is conditioned on {av}[{idx}] is not in the expected form: {unparse(elt)[:90]}'
                 ctx.add(rule, f'{name}:availability', ok, (f.file, c.lineno), msg, detail=unparse(elt), positive=positive)
             # sibling: apart from the guard the two branches sum the same term
-            ncomps = [c for st in none_branch for c in ast.walk(st) if isinstance(c, ast.ListComp)]
+            ncomps = [c for _, c in nsums]
             if len(ncomps) != len(comps):
                 ctx.add(rule, f'{name}:branches', False, (f.file, n.lineno), f'the branch without availabilities builds {len(ncomps)} sum(s), the other {len(comps)}', 'count')
                 continue
@@ -424,6 +639,8 @@ def availability_rule(ctx: Ctx, rule: str) -> None:
                         verdict = True
                     else:
                         verdict = None
+                if verdict is True and not (domain_ok(ca) and domain_ok(cn)):
+                    verdict = None
                 ctx.add(rule, f'{name}:branches', verdict, (f.file, cn.lineno),
                         'with and without availabilities the nest sum has the same term over the same alternatives' if verdict
                         else (f'the nest sum without availabilities has the term {unparse(cn.elt)[:80]}, with availabilities {unparse(bare)[:80] if bare is not None else "?"}: the model changes when availabilities all equal to 1 are passed'
@@ -467,7 +684,10 @@ def ordered_rule(ctx: Ctx, rule: str) -> None:
     prog = ctx.prog
     f = prog.func('models.ordered', 'ordered_likelihood')
     ps = f.positional_params()
-    x, vals, tau0, cdf = ps
+    if len(ps) < 4:
+        raise AnalysisError(f'{rule}: ordered_likelihood{tuple(ps)}: expected (value, list of categories, first threshold, cdf)')
+    # further parameters (defaulted options: naming of the increments, ...) do not take part in the formula checked here
+    x, vals, tau0, cdf = ps[:4]
     src = f.body
     fl = [n for n in src if isinstance(n, ast.For)]
     ctx.need(len(fl) == 1, 'ordered_likelihood has one loop over the intermediate values')
